@@ -311,6 +311,9 @@ func genC08(t *rapid.T) c08Case {
 			continue
 		}
 		add(x, true)
+		if chance(t, "duplicate-rule", 4) {
+			add(x, true) // the same rule twice (two lists, or twice in one): one twin disables both
+		}
 		add(tw, true)
 	}
 	var models []NetModel
